@@ -331,7 +331,6 @@ class Client:
         clients = [cls(channel) for channel in channels]
         for channel, client in zip(channels, clients):
             channel.sink = functools.partial(on_pdu, client)
-            channel.att_mtu = att.ATT_DEFAULT_MTU
         return clients[0] if count == 1 else clients
 
     @property
